@@ -5,7 +5,7 @@ the MIR of the client method is executed with symbolic argument values, its `Cli
 transport/router contract (split the path on the template, percent-decode nothing, form_urlencoded-parse the query, copy
 headers and body) and runs the MIR of the matching server `Endpoint::handle`; the handler model records its arguments and
 returns a symbolic value, which travels back through the real response serializer and the real response deserializer."""
-import json, re
+import json, re, os
 import z3
 from mirsym.interp import Interp, St
 from mirsym import models_std, models_http, models_serde
@@ -395,6 +395,56 @@ def M_json_serialize_str(it, ctx, args, st):
     yield st, it.ok(UNIT)
 
 
+def json_writer(st, ser_arg):
+    ser = st.deref_all(ser_arg) if isinstance(ser_arg, Ptr) else ser_arg
+    w = ser.fields[0]
+    while isinstance(st.deref(w), Ptr):
+        w = st.deref(w)
+    return w
+
+
+def M_json_serialize_none(it, ctx, args, st):
+    """serde_json: None and unit are written as the literal null"""
+    w = json_writer(st, args[0])
+    j = bstr(b'null')
+    st.aux['docs'] = st.aux.get('docs', ()) + (('serde_json', 'null', j, None),)
+    cur = st.deref(w)
+    st.write(w, j if (isinstance(cur, Seq) and not cur.items) or (isinstance(cur, BStr) and bstr_py(cur) == b'') else bstr_concat(cur, j))
+    yield st, it.ok(UNIT)
+
+
+def M_json_serialize_some(it, ctx, args, st):
+    """serde_json: Some(v) is written as v"""
+    T = ctx.gargs[0]
+    if os.environ.get('VERIF_DEBUG'):
+        print('serialize_some', ty_str(T), ty_str(ctx.self_ty), {k: ty_str(v) for k, v in ctx.fr.tenv.items() if isinstance(v, tuple)}, ctx.fr.fn.name)
+    yield from it.call_trait(ctx.fr, T, 'serde::Serialize', 'serialize', [ctx.self_ty], [args[1], args[0]], st)
+
+
+def M_json_deserialize_option(it, ctx, args, st):
+    """serde_json::Deserializer::deserialize_option: the document null -> visit_none, anything else -> visit_some(self)"""
+    cur = bodyio.find_cursor(st, args[0])
+    if cur is None:
+        raise Unsupported('deserialize_option on something that is not the body cursor')
+    V = ctx.gargs[0]
+    body = cur.fields[0]
+    body = st.deref_all(body) if isinstance(body, Ptr) else body
+    if isinstance(body, Seq) and not body.items:
+        body = bstr(b'')
+    vis = lambda m: f'<{ty_str(V)} as serde::de::Visitor>::{m}::<serde_json::Error>'
+    if isinstance(body, BStr):
+        # JSON: a document is null iff (up to white space) it is the text null; recorded documents are compact
+        is_null = bstr_eq(body, bstr(b'null'))
+        for s2, nul in fork_bool(it, st, is_null):
+            if nul:
+                s2.write(cur.fields[1], Agg('CursorState', (z3.BoolVal(True), z3.BoolVal(False), True)))
+                yield from it.call(ctx.fr, vis('visit_none'), [args[1]], s2)
+            else:
+                yield from it.call(ctx.fr, f'<{ty_str(V)} as serde::de::Visitor>::visit_some::<{ty_str(ctx.self_ty)}>', [args[1], args[0]], s2)
+        return
+    raise Unsupported('deserialize_option on an abstract body')
+
+
 def known_doc(it, st, cur, ty):
     body = cur.fields[0]
     body = st.deref_all(body) if isinstance(body, Ptr) else body
@@ -449,6 +499,17 @@ def M_erased_de_string(it, ctx, args, st):
     yield from it.call(ctx.fr, f'<{ty} as serde::Deserializer>::deserialize_string::<{ty_str(V)}>', [inner, args[1]], st)
 
 
+def M_erased_de_option(it, ctx, args, st):
+    """<Box<dyn erased_serde::Deserializer> as Deserializer>::deserialize_option: erased_serde forwards to the erased deserializer"""
+    b = args[0]
+    e = st.deref_all(b.fields[0].fields[0]) if isinstance(b, Agg) and b.name == 'Box' else (st.deref_all(b) if isinstance(b, Ptr) else b)
+    inner = e.fields[0]
+    tgt = st.deref_all(inner)
+    ty = f'&mut {tgt.name}<serde_json::de::SliceRead<\'_>>'
+    V = ctx.gargs[0]
+    yield from it.call(ctx.fr, f'<{ty} as serde::Deserializer>::deserialize_option::<{ty_str(V)}>', [inner, args[1]], st)
+
+
 def M_erase_ser(it, ctx, args, st):
     yield st, Agg('erased_serde::Serializer', (args[0],))
 
@@ -456,9 +517,14 @@ def M_erase_ser(it, ctx, args, st):
 def M_erased_serialize(it, ctx, args, st):
     """<dyn erased_serde::Serialize>::erased_serialize(value, &mut dyn Serializer): forwards to T::serialize with the erased serializer"""
     v = args[0]
-    while isinstance(v, Ptr) and not isinstance(st.deref(v), BStr):
+    while isinstance(v, Ptr) and not isinstance(st.deref(v), (BStr, Enum)):
         v = st.deref(v)
-    if not isinstance(st.deref(v) if isinstance(v, Ptr) else v, BStr):
+    val = st.deref(v) if isinstance(v, Ptr) else v
+    if isinstance(val, Enum) and val.decl.name.endswith('Option'):
+        # behind `dyn Serialize` the static type is gone; the harness definition only returns string and optional<string> (stated)
+        yield from erased_serialize_option(it, ctx, args, st, v, val)
+        return
+    if not isinstance(val, BStr):
         raise Unsupported(f'erased_serialize of {st.deref_all(v)!r:.80}')
     e = args[1]
     e = st.deref_all(e) if isinstance(e, Ptr) else e
@@ -476,6 +542,24 @@ def M_erased_serialize(it, ctx, args, st):
             yield s3, (it.ok(UNIT) if good else it.err(Agg('erased_serde::Error', ())))
 
 
+def erased_serialize_option(it, ctx, args, st, v, val):
+    e = args[1]
+    e = st.deref_all(e) if isinstance(e, Ptr) else e
+    if isinstance(e, Agg) and e.name == 'Box':
+        e = st.deref_all(e.fields[0].fields[0])
+    inner = e.fields[0]
+    tgt = st.deref_all(inner)
+    ty = f'&mut {tgt.name}<&mut std::vec::Vec<u8>>'
+    fr0 = type(ctx.fr)()
+    fr0.fn, fr0.locals, fr0.tenv, fr0.visits, fr0.depth = ctx.fr.fn, ctx.fr.locals, {}, {}, ctx.fr.depth
+    for s2, r in it.call(fr0, f'<std::option::Option<std::string::String> as serde::Serialize>::serialize::<{ty}>', [v if isinstance(v, Ptr) else st.ref(v), inner], st):
+        if is_abnormal(r):
+            yield s2, r
+            continue
+        for s3, good in fork_bool(it, s2, it.variant_of(r, 'Ok')):
+            yield s3, (it.ok(UNIT) if good else it.err(Agg('erased_serde::Error', ())))
+
+
 def M_vec_into_bytes(it, ctx, args, st):
     v = args[0]
     yield st, (bstr(b'') if isinstance(v, Seq) and not v.items else v)
@@ -485,8 +569,12 @@ DOC_MODELS = [
     (r'serde_json::Serializer::<.*>::new|serde_json::ser::Serializer::<.*>::new', M_json_ser_new),
     (r'<&mut serde_json::(?:ser::)?Serializer<.*> as (?:[\w:]+::)?Serializer>::serialize_str', M_json_serialize_str),
     (r'<&mut serde_json::(?:de::)?Deserializer<.*> as (?:[\w:]+::)?Deserializer(?:<.*>)?>::deserialize_string::<.*>', M_json_deserialize_string),
+    (r'<&mut serde_json::(?:ser::)?Serializer<.*> as (?:[\w:]+::)?Serializer>::serialize_(?:none|unit)', M_json_serialize_none),
+    (r'<&mut serde_json::(?:ser::)?Serializer<.*> as (?:[\w:]+::)?Serializer>::serialize_some::<.*>', M_json_serialize_some),
+    (r'<&mut serde_json::(?:de::)?Deserializer<.*> as (?:[\w:]+::)?Deserializer(?:<.*>)?>::deserialize_option::<.*>', M_json_deserialize_option),
     (r'serde_json::Deserializer::<.*>::end|serde_json::Deserializer::end|serde_json::de::Deserializer::<.*>::end', M_end_known),
     (r'<std::boxed::Box<dyn erased_serde::Deserializer.*> as (?:[\w:]+::)?Deserializer(?:<.*>)?>::deserialize_string::<.*>', M_erased_de_string),
+    (r'<std::boxed::Box<dyn erased_serde::Deserializer.*> as (?:[\w:]+::)?Deserializer(?:<.*>)?>::deserialize_option::<.*>', M_erased_de_option),
     (r'.*erased_serde::Serializer.*::erase::<.*>', M_erase_ser),
     (r'.*erased_serde::Serialize.*::erased_serialize', M_erased_serialize),
     (r'<bytes::Bytes as std::convert::From<std::vec::Vec<u8>>>::from|<std::vec::Vec<u8> as std::convert::Into<bytes::Bytes>>::into', M_vec_into_bytes),
@@ -676,6 +764,8 @@ class Case:
             elif kind == 'opt_str':
                 has, x = v
                 out[k] = model_bytes(m, x).hex() if z3.is_true(m.eval(has, True)) else None
+            elif kind == 'set_str':
+                out[k] = sorted(model_bytes(m, x).hex() for x in v)
         return out
 
 
@@ -694,10 +784,16 @@ def native_verdict(case_op, nat):
         return False, f'{len(calls)} handler invocations'
     c = calls[0]
     for k, v in case_op.items():
-        if k in ('op', 'endpoint', 'ret'):
+        if k in ('op', 'endpoint', 'ret', 'ret_opt'):
+            continue
+        if k == 'set_arg':
+            if sorted(set(c.get(k) or [])) != sorted(set(v)):
+                return False, f'argument {k}: client gave the set {v!r}, handler received {c.get(k)!r}'
             continue
         if c.get(k) != v:
             return False, f'argument {k}: client gave {v!r}, handler received {c.get(k)!r}'
+    if 'ret_opt' in case_op and nat.get('returned') != case_op['ret_opt']:
+        return False, f'client returned {nat.get("returned")!r}, handler returned {case_op["ret_opt"]!r}'
     if 'ret' in case_op and nat.get('returned') != case_op['ret']:
         return False, f'client returned {nat.get("returned")!r}, handler returned {case_op["ret"]!r}'
     return True, 'delivered'
@@ -714,6 +810,14 @@ def report(rep, case, m, what):
         rep.violation(f'C04:{case.name}', f'{what}; native loopback with {op}: {why}', {'op': op, 'native': nat})
     else:
         rep.inconc(f'model mismatch C04 {case.name}: {what} with {op} does not reproduce natively ({why}; {str(nat)[:200]})')
+
+
+def set_eq(g, w):
+    """two sequences hold the same set of values (a BTreeSet argument: order and multiplicity of the insertions do not matter)"""
+    if not (isinstance(g, Seq) and isinstance(w, Seq)):
+        return z3.BoolVal(False)
+    inc = lambda a, b: z3.And(*[z3.Or(*[val_eq(x, y) for y in b.items]) if b.items else z3.BoolVal(False) for x in a.items]) if a.items else z3.BoolVal(True)
+    return z3.And(inc(g, w), inc(w, g))
 
 
 def run_case(rep, it, dec, prog, case, st, tenv, flavour='blocking'):
@@ -748,7 +852,8 @@ def run_case(rep, it, dec, prog, case, st, tenv, flavour='blocking'):
         if len(calls) == 1:
             got = [deep(s2, a) for a in calls[0][1]]
             want = [deep(s2, a) for a in case.args]
-            same = z3.And(*[val_eq(g, w) for g, w in zip(got, want)]) if len(got) == len(want) else z3.BoolVal(False)
+            sets = getattr(case, 'set_args', ())
+            same = z3.And(*[(set_eq(g, w) if k in sets else val_eq(g, w)) for k, (g, w) in enumerate(zip(got, want))]) if len(got) == len(want) else z3.BoolVal(False)
             okp = it.payload(rv, 'Ok')
             ret_same = val_eq(deep(s2, okp.fields[0]), deep(s2, case.ret)) if (okp is not None and case.ret is not None) else z3.BoolVal(True)
             bad = z3.Or(z3.Not(is_ok), z3.Not(same), z3.Not(ret_same))
@@ -825,7 +930,7 @@ def run_generated(rep, tier):
     servers, handles = server_metadata(prog, it0, GCRATE, r'::__(G\d+)Endpoint<', exclude='AsyncGsvc')
     if set(servers) < {'g1', 'g2', 'g3'}:
         raise Inconclusive(f'C04 harness: generated endpoints not found: {servers}')
-    rep.bounds['generated'] = f'generated client (blocking) and generated #[conjure_endpoints] trait of gen-crates/service (real conjure-codegen output; server metadata {servers}); list query argument of 0..2 integers'
+    rep.bounds['generated'] = f'generated client (blocking) and generated #[conjure_endpoints] trait of gen-crates/service (real conjure-codegen output; server metadata {servers}); list query argument of 0..2 integers; set<string> query argument of 0..2 distinct members; optional<string> body and optional<string> result, present and absent'
     tenv = {'T': ('path', 'MockClient', ())}
 
     def mk(rets):
@@ -843,48 +948,76 @@ def run_generated(rep, tier):
             it.assoc_types[('MockClient', tr, 'BodyWriter')] = ('path', 'Out', ())
         it.const_generic_defaults['N'] = bv(50 * 1024 * 1024)
         return it
+    only = os.environ.get('VERIF_C04_ONLY')          # development aid: restrict to one generated endpoint
     # ---- g1
-    it = mk({})
-    dec = Decider(rep, it)
-    st = St()
-    c = GenCase('g1', 'Gsvc')
-    path_arg, header_arg = z3.BitVec('path_arg', 32), z3.BitVec('header_arg', 32)
-    qp, qs = sym_str(st, 'query_arg', L)
-    tok, ts = valid_token(st, 'token')
-    c.args = [tok, path_arg, qp, header_arg]
-    c.syms = {'path_arg': ('i32', path_arg), 'query_arg': ('str', qs), 'header_arg': ('i32', header_arg), 'token': ('token', ts)}
-    run_case(rep, it, dec, prog, c, st, tenv)
-    finish_engine(rep, it)
-    # ---- g2 with 0, 1, 2 list elements
-    for nl in (0, 1, 2):
+    if only in (None, 'g1'):
         it = mk({})
         dec = Decider(rep, it)
         st = St()
-        c = GenCase('g2', 'Gsvc')
-        pp, ps = sym_str(st, 'p_arg', L)
-        oq, oq_has, oq_v = opt_i32(it, 'opt_arg')
-        items = [z3.BitVec(f'lst{i}', 32) for i in range(nl)]
-        lp = st.ref(Seq(tuple(items)))
-        bp, bs = sym_str(st, 'bar_arg', L)
-        b_has = z3.Bool('bar_some')
+        c = GenCase('g1', 'Gsvc')
+        path_arg, header_arg = z3.BitVec('path_arg', 32), z3.BitVec('header_arg', 32)
+        qp, qs = sym_str(st, 'query_arg', L)
         tok, ts = valid_token(st, 'token')
-        c.args = [tok, pp, oq, lp, it.opt(b_has, bp)]
-        c.syms = {'p_arg': ('str', ps), 'opt_arg': ('opt_i32', (oq_has, oq_v)), 'lst_arg': ('list_i32', items), 'bar_arg': ('opt_str', (b_has, bs)), 'token': ('token', ts)}
-        c.refusable = z3.And(b_has, z3.Not(text_header_ok(bs)))
-        run_case(rep, it, dec, prog, c, st, tenv, f'blocking:list{nl}')
+        c.args = [tok, path_arg, qp, header_arg]
+        c.syms = {'path_arg': ('i32', path_arg), 'query_arg': ('str', qs), 'header_arg': ('i32', header_arg), 'token': ('token', ts)}
+        run_case(rep, it, dec, prog, c, st, tenv)
         finish_engine(rep, it)
+    # ---- g2 with 0, 1, 2 list elements
+    if only in (None, 'g2'):
+        for nl in (0, 1, 2):
+            it = mk({})
+            dec = Decider(rep, it)
+            st = St()
+            c = GenCase('g2', 'Gsvc')
+            pp, ps = sym_str(st, 'p_arg', L)
+            oq, oq_has, oq_v = opt_i32(it, 'opt_arg')
+            items = [z3.BitVec(f'lst{i}', 32) for i in range(nl)]
+            lp = st.ref(Seq(tuple(items)))
+            bp, bs = sym_str(st, 'bar_arg', L)
+            b_has = z3.Bool('bar_some')
+            tok, ts = valid_token(st, 'token')
+            c.args = [tok, pp, oq, lp, it.opt(b_has, bp)]
+            c.syms = {'p_arg': ('str', ps), 'opt_arg': ('opt_i32', (oq_has, oq_v)), 'lst_arg': ('list_i32', items), 'bar_arg': ('opt_str', (b_has, bs)), 'token': ('token', ts)}
+            c.refusable = z3.And(b_has, z3.Not(text_header_ok(bs)))
+            run_case(rep, it, dec, prog, c, st, tenv, f'blocking:list{nl}')
+            finish_engine(rep, it)
     # ---- g3
-    st = St()
-    c = GenCase('g3', 'Gsvc')
-    bp, bs = sym_str(st, 'body_arg', L)
-    rp, rs = sym_str(st, 'ret', L)
-    it = mk({'g3': rs})
-    dec = Decider(rep, it)
-    c.args = [bp]
-    c.ret = rs
-    c.syms = {'body_arg': ('str', bs), 'ret': ('str', rs)}
-    run_case(rep, it, dec, prog, c, st, tenv)
-    finish_engine(rep, it)
+    if only in (None, 'g3'):
+        st = St()
+        c = GenCase('g3', 'Gsvc')
+        bp, bs = sym_str(st, 'body_arg', L)
+        rp, rs = sym_str(st, 'ret', L)
+        it = mk({'g3': rs})
+        dec = Decider(rep, it)
+        c.args = [bp]
+        c.ret = rs
+        c.syms = {'body_arg': ('str', bs), 'ret': ('str', rs)}
+        run_case(rep, it, dec, prog, c, st, tenv)
+        finish_engine(rep, it)
+
+
+    # ---- g4: set<string> query argument (0..2 members), optional<string> body, optional<string> result
+    if only in (None, 'g4'):
+        for ns in (0, 1, 2):
+            st = St()
+            c = GenCase('g4', 'Gsvc')
+            members = [sym_str(st, f'set{i}', L) for i in range(ns)]
+            if ns == 2:
+                st.pc.append(z3.Not(bstr_eq(members[0][1], members[1][1])))
+            sp = st.ref(Seq(tuple(s_ for _, s_ in members)))
+            bp, bs = sym_str(st, 'opt_body', L)
+            b_has = z3.Bool('opt_body_some')
+            rp, rs = sym_str(st, 'ret_opt', L)
+            r_has = z3.Bool('ret_opt_some')
+            it = mk({})
+            it = mk({'g4': it.opt(r_has, rs)})
+            dec = Decider(rep, it)
+            c.args = [sp, it.opt(b_has, bp)]
+            c.set_args = (0,)
+            c.ret = it.opt(r_has, rs)
+            c.syms = {'set_arg': ('set_str', [s_ for _, s_ in members]), 'opt_body': ('opt_str', (b_has, bs)), 'ret_opt': ('opt_str', (r_has, rs))}
+            run_case(rep, it, dec, prog, c, st, tenv, f'blocking:set{ns}')
+            finish_engine(rep, it)
 
 
 def run(rep, tier):
@@ -893,7 +1026,10 @@ def run(rep, tier):
     twins = [{'op': 'loopback_gen', 'endpoint': 'g1', 'path_arg': -2147483648, 'query_arg': b'/+%'.hex(), 'header_arg': 2147483647, 'token': 'a+/='},
              {'op': 'loopback_gen', 'endpoint': 'g2', 'p_arg': b'%2F'.hex(), 'opt_arg': None, 'lst_arg': [3, -4], 'bar_arg': b' ~ '.hex(), 'token': 'x=='},
              {'op': 'loopback_gen', 'endpoint': 'g2', 'p_arg': '', 'opt_arg': -1, 'lst_arg': [], 'bar_arg': None, 'token': 'x'},
-             {'op': 'loopback_gen', 'endpoint': 'g3', 'body_arg': b'"\\\n'.hex(), 'ret': b'\x00\xc3\xa9'.hex()}]
+             {'op': 'loopback_gen', 'endpoint': 'g3', 'body_arg': b'"\\\n'.hex(), 'ret': b'\x00\xc3\xa9'.hex()},
+             {'op': 'loopback_gen', 'endpoint': 'g4', 'set_arg': sorted([b'a&b'.hex(), b'%'.hex()]), 'opt_body': None, 'ret_opt': None},
+             {'op': 'loopback_gen', 'endpoint': 'g4', 'set_arg': [], 'opt_body': b'"x'.hex(), 'ret_opt': b'\xc3\xa9'.hex()},
+             {'op': 'loopback_gen', 'endpoint': 'g4', 'set_arg': [''], 'opt_body': '', 'ret_opt': ''}]
     for op, nat in zip(twins, replay(twins)):
         rep.replayed += 1
         ok, why = native_verdict(op, nat)
